@@ -124,7 +124,7 @@ func runC09(e *env) error {
 	_ = os.MkdirAll(base, 0o755)
 	n, reps := 13, 4
 	if e.thorough {
-		n, reps = 39, 12
+		n, reps = 39*e.scale, 12
 	}
 	cases := detProjects(n)
 	type result struct {
